@@ -1,7 +1,8 @@
 (** Correspondence evaluators for C20: run the models on what the harness
     fed to the implementation and compare with what it observed. *)
 From Coq Require Import List NArith ZArith Bool Arith.
-From Verif Require Import Aries.Str Aries.Radix Aries.SegTrie Aries.Router Aries.Tiers Gen.AriesSkel.
+From Verif Require Import Aries.Str Aries.Radix Aries.SegTrie Aries.Router Aries.Tiers Aries.Entry
+  Gen.AriesSkel Gen.AriesEntry.
 Import ListNotations.
 
 Fixpoint list_eqb {A} (eqb : A -> A -> bool) (a b : list A) : bool :=
@@ -75,9 +76,12 @@ Definition seg_res_eqb (a b : nat * str * str) : bool :=
 
 (** * Routers *)
 Inductive rop :=
-| RIndex (h : N) | RDefault (h : N)
-| RFile (m p : str) (h : N)          (* MethodFile(m, p, ..); File = method "" *)
-| RDir (p : str) (h : N).
+| RIndex (h : option N) | RDefault (h : option N)
+| RFile (m p : str) (h : option N)   (* MethodFile(m, p, ..); File = method "" *)
+| RDir (p : str) (h : option N)
+| RCall (p : str) (h : option N).    (* Call = JSONCallMust: POST file, panics when refused *)
+
+Definition m_post : str := [80; 79; 83; 84]%N.
 
 Fixpoint router_obs (r : router) (ops : list rop) : router * list N :=
   match ops with
@@ -87,8 +91,13 @@ Fixpoint router_obs (r : router) (ops : list rop) : router * list N :=
         match op with
         | RIndex h => Some (set_index r h, true)
         | RDefault h => Some (set_default r h, true)
-        | RFile m p h => router_add r p (RNode h false m)
-        | RDir p h => router_add r p (RNode h true [])
+        | RFile m p h => router_add_svc r p h false m
+        | RDir p h => router_add_svc r p h true []
+        | RCall p h =>
+            match router_add_svc r p h false m_post with
+            | Some (r', true) => Some (r', true)
+            | _ => None
+            end
         end in
       match step with
       | None => let '(r', fl) := router_obs r rest in (r', 2%N :: fl)
@@ -98,8 +107,16 @@ Fixpoint router_obs (r : router) (ops : list rop) : router * list N :=
 
 (** Handlers [>= 1000] are the other routers of the case. Result: leaf tag
     (or -1), [c.Rel()] seen by the leaf, error class
-    (0 nil, 1 miss, 2 bad method, 3 panic, 9 evaluator gave up). *)
-Fixpoint serve_nested (fuel : nat) (rs : list router) (i : nat) (c : ctx) : Z * str * N :=
+    (0 nil, 1 miss, 2 bad method, 3 panic, 9 evaluator gave up; what the
+    leaf was told to return: 4 NotFound, 5 Internal, 6 Unauthorized,
+    7 InvalidArg, 8 an error without code). *)
+Fixpoint leaf_code (le : list (N * N)) (h : N) : N :=
+  match le with
+  | [] => 0%N
+  | (t, e) :: r => if (t =? h)%N then e else leaf_code r h
+  end.
+
+Fixpoint serve_nested (le : list (N * N)) (fuel : nat) (rs : list router) (i : nat) (c : ctx) : Z * str * N :=
   match fuel with
   | O => ((-9)%Z, [], 9%N)
   | S k =>
@@ -107,8 +124,8 @@ Fixpoint serve_nested (fuel : nat) (rs : list router) (i : nat) (c : ctx) : Z * 
       | None => ((-9)%Z, [], 9%N)
       | Some r =>
           let go h c' :=
-            if (1000 <=? h)%N then serve_nested k rs (N.to_nat (h - 1000)) c'
-            else (Z.of_N h, rel c', 0%N) in
+            if (1000 <=? h)%N then serve_nested le k rs (N.to_nat (h - 1000)) c'
+            else (Z.of_N h, rel c', leaf_code le h) in
           match router_serve_with gen_dispatch_cond gen_method_reject r c with
           | OIndex h c' => go h c'
           | ODefault h c' => go h c'
@@ -196,12 +213,58 @@ Definition ev_eqb (a b : N * str * Z) : bool :=
 (** A Go panic unwinds out of Serve: the redirect (the only event after
     which nothing can panic) aside, the events before the panic did happen. *)
 
+(** * The HTTP entry *)
+
+(** status, handler reached, C.Path, route segments, PathIsDir, Req.Host,
+    leaf tag, c.Rel() at the leaf *)
+Definition eobs : Type := N * bool * str * list str * bool * str * Z * str.
+
+Definition eobs_eqb (a b : eobs) : bool :=
+  let '(s1, r1, p1, g1, d1, h1, t1, l1) := a in
+  let '(s2, r2, p2, g2, d2, h2, t2, l2) := b in
+  (s1 =? s2)%N && Bool.eqb r1 r2 && str_eqb p1 p2 && list_eqb str_eqb g1 g2 && Bool.eqb d1 d2 &&
+  str_eqb h1 h2 && (t1 =? t2)%Z && str_eqb l1 l2.
+
+(** Error class of the service result -> the class [C.ErrCode] switches on. *)
+Definition eclass_of (e : N) : eclass :=
+  match e with
+  | 0 => ENil | 1 => ENotFound (* Miss *) | 2 => EInvalidArg (* unsupported method *)
+  | 4 => ENotFound | 5 => EInternal | 6 => EUnauthorized | 7 => EInvalidArg
+  | _ => EOther
+  end%N.
+
+Definition entry_obs (hmux : bool) (hm : hostmux) (rs : list router) (le : list (N * N)) (r : rawreq) : eobs :=
+  match http_parse r with
+  | HBad => (400%N, false, [], [], false, [], (-1)%Z, [])
+  | HOptionsStar => (200%N, false, [], [], false, [], (-1)%Z, [])
+  | HReq path host =>
+      match new_actx_with gen_ctx_path_src gen_ctx_route_src (PUrl path [] [] []) (rq_method r) host with
+      | None => (999%N, false, [], [], false, [], (-9)%Z, [])
+      | Some a =>
+          let c := a_ctx a in
+          let '(tag, rl, e) :=
+            if hmux then
+              match gen_host_key, host_serve hm (a_host a) with
+              | HKReqHost, Some j => serve_nested le 8 rs (N.to_nat j) c
+              | HKReqHost, None => ((-1)%Z, [], 1%N)
+              | HKUnknown _, _ => ((-9)%Z, [], 9%N)
+              end
+            else serve_nested le 8 rs 0 c in
+          (* a panic in the handler: net/http drops the connection, no status *)
+          let status := if (e =? 3)%N then 0%N
+                        else status_with gen_errcode_table gen_errcode_default (eclass_of e) in
+          (status, true, a_path a, c_routes c, c_isdir c, a_host a, tag, rl)
+      end
+  end.
+
 Inductive ccase :=
 | CMux (ops : list mux_op) (oks : list N) (paths : list str) (routes : list (option N)) (dump : node)
 | CTrie (adds : list str) (oks : list N) (paths : list str) (finds : list (str * bool)) (dump : node)
 | CSeg (adds : list (list str * str)) (oks : list N) (qs : list (list str)) (finds : list (nat * str * str))
-| CRouter (routers : list (list rop)) (roks : list (list N)) (reqs : list (str * str))
+| CRouter (routers : list (list rop)) (le : list (N * N)) (roks : list (list N)) (reqs : list (str * str))
           (obs : list (Z * str * N))
+| CEntry (hmux : bool) (hsets : list (str * N)) (routers : list (list rop)) (le : list (N * N))
+         (raws : list rawreq) (obs : list eobs)
 | CTiers (internal : bool) (c0 : ident) (cfg : tcfg) (trace : list (N * str * Z)) (res : N)
 | CHost (sets : list (str * N)) (reqs : list str) (obs : list (option N)).
 
@@ -223,11 +286,15 @@ Definition check_case (c : ccase) : bool :=
       let '(t, fl) := seg_obs empty_snode adds in
       list_eqb N.eqb fl oks &&
       list_eqb seg_res_eqb (map (seg_query t) qs) finds
-  | CRouter defs roks reqs obs =>
+  | CRouter defs le roks reqs obs =>
       let built := map (router_obs new_router) defs in
       list_eqb (list_eqb N.eqb) (map snd built) roks &&
       list_eqb req_eqb
-        (map (fun q => serve_nested 8 (map fst built) 0 (new_ctx (fst q) (snd q))) reqs) obs
+        (map (fun q => serve_nested le 8 (map fst built) 0 (new_ctx (fst q) (snd q))) reqs) obs
+  | CEntry hmux hsets defs le raws obs =>
+      let rs := map (fun d => fst (router_obs new_router d)) defs in
+      let hm := fold_left (fun m kv => host_set m (fst kv) (snd kv)) hsets [] in
+      list_eqb eobs_eqb (map (entry_obs hmux hm rs le) raws) obs
   | CTiers internal c0 cfg trace res =>
       let '(tr, f) :=
         run gen_default_admin gen_serve_auth_prog (mk_sset cfg)
